@@ -31,7 +31,7 @@ COMPONENTS = {
 }
 ASSUMPTIONS = ["pymalloc hands a freed block out again unless it is taken: address-derived hashes are exposed by holding blocks (robust in practice, not guaranteed by the language)"]
 EXPECTED_PROBES = ["alloc_between_hashes", "cross_class_eq", "cross_class_order", "lookup_through_twin", "sorted_heterogeneous",
-                   "basis_kinds_compared", "transitivity_triple", "vinc_vs_cov", "id_reused", "derived_from_used_object", "interrupted_hash", "flood", "equal_hash_unequal_objects"]
+                   "basis_kinds_compared", "transitivity_triple", "vinc_vs_cov", "id_reused", "derived_from_used_object", "interrupted_hash", "flood", "equal_hash_unequal_objects", "interrupted_comparison"]
 
 
 def plan(tier):
@@ -231,9 +231,10 @@ def _twin(rng, d):
         if r < 0.75:
             return {"t": "biv", "perm": d["perm"], "idx": list(reversed(idx)) + idx[:1], "val": val + val[-1:]}
         if not val:
-            return {"t": "vinc", "perm": d["perm"], "idx": list(idx)}
+            # the same class from another spelling of the adjacency list (unsorted, repeated entries)
+            return {"t": "vinc", "perm": d["perm"], "idx": list(reversed(idx)) + list(idx[-1:]) if rng.random() < 0.6 else list(idx)}
         if not idx:
-            return {"t": "cov", "perm": d["perm"], "val": list(val)}
+            return {"t": "cov", "perm": d["perm"], "val": list(val) + list(val[:1]) if rng.random() < 0.6 else list(val)}
         return {"t": "biv", "perm": d["perm"], "idx": list(idx), "val": list(val)}
     if t == "basis":
         return dict(d, route=rng.choice(["rev", "dup", "from_iterable", "from_string"]))
@@ -337,6 +338,26 @@ def gen_case(rng, tier):
             perm = common.rand_perm(rng, 8)
             for cells in (a + common_cells, b + common_cells, sorted(a + common_cells)[:-1] + [max(b)]):
                 pool.append({"t": "mesh", "perm": perm, "shading": [list(c) for c in cells], "order": "given"})
+    rank_twins = None
+    if rng.random() < 0.06:
+        # two mesh patterns of different lengths whose shadings have the same rank integer
+        # (bit x*(n+1)+y per cell): anything keyed by rank() alone confuses them
+        n1, n2 = rng.sample([1, 2, 3, 4], 2)
+        ncells = rng.randint(4, min((n1 + 1) ** 2, (n2 + 1) ** 2, 9))
+        bits = rng.sample(range(min((n1 + 1) ** 2, (n2 + 1) ** 2)), ncells)
+        rank_twins = []
+        cells_of = {}
+        for n in (n1, n2):
+            perm = common.rand_perm(rng, n)
+            cells = [[b // (n + 1), b % (n + 1)] for b in bits]
+            cells_of[n] = (perm, cells)
+            base = {"t": "mesh", "perm": perm, "shading": cells, "order": "given"}
+            rank_twins.append(len(pool))
+            pool.extend([base, _twin(rng, base), _neighbour(rng, base)])
+        # on the larger grid also the pattern that really has the cells of the smaller one
+        big, small = max(n1, n2), min(n1, n2)
+        pool.append({"t": "mesh", "perm": cells_of[big][0], "shading": cells_of[small][1], "order": "given"})
+        rank_twins.append(len(pool) - 1)
     groups = {}
     for i, d in enumerate(pool):
         groups.setdefault(group(d), []).append(i)
@@ -376,6 +397,10 @@ def gen_case(rng, tier):
             g = rng.choice(["meshlike", "meshlike", "perm"])
             if g in groups:
                 a, b = pair(g)
+                if rng.random() < 0.12:
+                    # an earlier comparison of the same two objects that was interrupted part-way
+                    ops.append({"op": "interrupted_cmp", "a": a, "b": b, "which": rng.choice(["lt", "le", "gt", "ge", "eq"]),
+                                "at": rng.randint(1, 14) if rng.random() < 0.5 else {"guided": round(rng.random(), 3)}})
                 ops.append({"op": "cmp", "a": a, "b": b})
         elif r < 0.7:
             g = rng.choice(["meshlike", "perm"])
@@ -426,6 +451,17 @@ def gen_case(rng, tier):
     if rng.random() < 0.03:
         # more distinct underlying permutations than any bounded cache is likely to hold
         ops.insert(rng.randrange(len(ops) + 1), {"op": "flood", "n": rng.choice([1500, 5000]), "then": [pick() for _ in range(4)]})
+    if rank_twins is not None:
+        i1, i2, i3 = rank_twins
+        big_base = i1 if len(pool_initial[i1]["perm"]) > len(pool_initial[i2]["perm"]) else i2
+        small_base = i2 if big_base == i1 else i1
+        seq = [{"op": "cmp", "a": small_base, "b": small_base + 2}, {"op": "cmp", "a": big_base, "b": big_base + 2},
+               {"op": "cmp", "a": big_base, "b": i3}, {"op": "cmp", "a": i3, "b": big_base + 1},
+               {"op": "sorted", "idx": [big_base, i3, big_base + 2, big_base + 1], "seeds": [rng.getrandbits(30), rng.getrandbits(30)]}]
+        if rng.random() < 0.5:
+            seq[0], seq[1] = seq[1], seq[0]
+        pos = rng.randrange(len(ops) + 1)
+        ops[pos:pos] = seq
     if any(len(d.get("perm", [])) == 8 for d in pool_initial[-3:]) and len(pool_initial) >= 3:
         k = len(pool_initial)
         ops.append({"op": "sorted", "idx": [k - 3, k - 2, k - 1, k - 3], "seeds": [rng.getrandbits(30), rng.getrandbits(30)]})
@@ -563,6 +599,32 @@ def execute(case):
             else:
                 check_hash(i, "hash op")
             hist.log.add("interrupted_hash", idx, status)
+        elif kind == "interrupted_cmp":
+            import operator  # pylint: disable=import-outside-toplevel
+            import os  # pylint: disable=import-outside-toplevel
+
+            a, b = objs[op["a"]], objs[op["b"]]
+            if group(descs[op["a"]]) != group(descs[op["b"]]) or group(descs[op["a"]]) == "basis":
+                continue
+            fn = lambda f=getattr(operator, op["which"]), x=a, y=b: f(x, y)  # noqa: E731
+            pref = [os.path.join(core.repo_dir(), "permuta") + os.sep]
+            at = op["at"]
+            if isinstance(at, dict):
+                import permuta  # pylint: disable=import-outside-toplevel
+
+                # per-object state is invisible to the process-wide fingerprint: expose it for the dry run
+                permuta._verif_pool = [getattr(o, "__dict__", None) for o in (a, b)]  # pylint: disable=protected-access
+                at = histsim.guided_interrupt_at(fn, pref, at["guided"])
+                del permuta._verif_pool
+                out.probe("guided_interrupt" if at else "guided_interrupt_no_state_change")
+            try:
+                status, _r, _n = histsim.run_interruptible(fn, at or 10 ** 9, pref)
+            except Exception:  # pylint: disable=broad-except
+                status = "exception"  # judged by the cmp op that follows
+            if status == "interrupted":
+                out.fault("interrupted_call")
+                out.probe("interrupted_comparison")
+            hist.log.add("interrupted_cmp", idx, status)
         elif kind == "insert":
             i = op["obj"]
             check_hash(i, "insert")
